@@ -347,6 +347,9 @@ pub fn run(ctx: &Ctx, rep: &Report) -> Meta {
         .enumerate()
         .map(|(k, c)| {
             let mut c2 = c.clone();
+            if !c.hidden_list.is_empty() || c.hidden_mask == 0 {
+                return c2;
+            }
             c2.small_mask = if k % 3 == 0 { c.hidden_mask } else { c.hidden_mask & (0b10101 >> (k % 2)) | (1 << (c.hidden_mask.trailing_zeros())) };
             c2.seed = c.seed.wrapping_add(1000 + k as u32);
             c2
@@ -369,7 +372,7 @@ pub fn run(ctx: &Ctx, rep: &Report) -> Meta {
             }
             let n = 1 + (crate::gen::splitmix(&mut st) % 3) as usize;
             let hm = 1 + (crate::gen::splitmix(&mut st) as usize % ((1 << n) - 1)) as u8;
-            let c = Case { key: crate::gen::splitmix(&mut st) as u16, n, hidden_mask: hm, kind: [2u8, 0, 2, 1][k % 4], seed: crate::gen::splitmix(&mut st) as u32, small_mask: if k % 5 == 4 { hm } else { 0 } };
+            let c = Case { key: crate::gen::splitmix(&mut st) as u16, n, hidden_mask: hm, kind: [2u8, 0, 2, 1][k % 4], seed: crate::gen::splitmix(&mut st) as u32, small_mask: if k % 5 == 4 { hm } else { 0 }, hidden_list: vec![] };
             one(rep, "long-lived-prover-thread", &c)?;
         }
         rep.class_n("proofs-generated-on-long-lived-threads", per_thread as u64);
